@@ -235,7 +235,7 @@ def run_check(prop, tier, rule_fn, level_note, floors=None, controls_fn=None, th
     for o in ctx.obligations:
         mark = {"ok": "ok  ", "violated": "FAIL", "undecided": "??  ", "anchor-missing": "MISS"}[o.status]
         print("  [%s] %-34s %-4s %s  (%s)%s" % (mark, o.id, o.rule, o.text, o.loc,
-                                                 ("\n         -> " + o.detail) if o.status != "ok" and o.detail else ""))
+                                                 ("\n         -> " + (o.detail if len(o.detail) < 600 else o.detail[:600] + " ...")) if o.status != "ok" and o.detail else ""))
     for o in known_hit:
         print("KNOWN-FINDING: property=%s %s: %s (%s)" % (prop, o.id, o.detail, o.loc))
     rc = 0
@@ -245,7 +245,8 @@ def run_check(prop, tier, rule_fn, level_note, floors=None, controls_fn=None, th
             json.dump({"property": prop, "violations": [o.as_json() for o in viol],
                        "floors": floor_fail, "broken": broken}, fh, indent=1)
         for o in viol:
-            print("VIOLATION property=%s replay=%s  # %s %s at %s: %s" % (prop, replay, o.id, o.status, o.loc, o.detail))
+            print("VIOLATION property=%s replay=%s  # %s %s at %s: %s" % (prop, replay, o.id, o.status, o.loc,
+                                                                          o.detail if len(o.detail) < 400 else o.detail[:400] + " ..."))
         for f in floor_fail:
             print("VIOLATION property=%s replay=%s  # floor: %s" % (prop, replay, f))
         for b in broken:
@@ -288,3 +289,33 @@ def run_check(prop, tier, rule_fn, level_note, floors=None, controls_fn=None, th
     print("== %s: %d obligations, %d ok, %d undecided, %d known findings, %d violations, %.1fs"
           % (prop, n_ob, n_ok, n_und, len(known_hit), len(viol) + len(floor_fail), wall))
     return rc
+
+
+_CONTROL = {}
+
+
+def control_ctx(prop="CTL"):
+    """analysis context of the positive-control crate (/verif/fixtures/controls)"""
+    if "ctx" not in _CONTROL:
+        facts, _ = ensure_facts(CONTROLS, "lib")
+        prog = Program(facts)
+        an = Analysis(prog, max_rounds=20)
+        _CONTROL["ctx"] = (prog, an)
+    prog, an = _CONTROL["ctx"]
+    return Ctx(prop, "quick", prog, an, label="controls")
+
+
+def run_controls(specs):
+    """specs: list of (name, fn(ctx) -> None) where fn adds obligations on the control crate;
+    a control fires when at least one of its obligations is violated"""
+    out = []
+    for name, fn in specs:
+        c = control_ctx()
+        try:
+            fn(c)
+            fired = any(o.status == "violated" for o in c.obligations)
+            out.append({"name": name, "fired": fired,
+                        "reports": [o.detail[:160] for o in c.obligations if o.status == "violated"][:3]})
+        except Exception as e:  # a crashing control is a broken check
+            out.append({"name": name, "fired": False, "error": repr(e)})
+    return out
